@@ -1,2 +1,3 @@
+import Neutrino.Props.C05
 import Neutrino.Props.C06
 import Neutrino.Props.C16
